@@ -77,7 +77,7 @@ DECIDING = ["anom_range", "anom_inverse", "anom_reference", "kepler_residual", "
             "coe_forward", "coe_ranges", "coe_values", "coe_singular_form", "coe_roundtrip", "coe_class_state",
             "eqe_forward", "eqe_values", "eqe_roundtrip", "eqe_other_mu", "eqe2coe_state", "coe2eqe_state",
             "cfg_eci", "cfg_coe_full", "cfg_coe_ecc_equatorial", "cfg_coe_circ_inclined", "cfg_coe_circ_equatorial",
-            "cfg_eqe_direct", "cfg_eqe_retro"]
+            "cfg_eqe_direct", "cfg_eqe_retro", "helpers"]
 MANIFEST = {
     "technique": "runtime monitoring: round-trip, Kepler-residual, range and reference-model oracles over the real element/"
                  "anomaly conversion functions and the pydantic StateConfig classes on boundary-biased generated orbits",
@@ -490,6 +490,63 @@ def _coe_ranges(ctx, c, wit, src):
     return ok
 
 
+def chk_orbit_helpers(ctx, els, mu_other):
+    """State -> anomaly / flight-path / momentum-direction helpers and the class flags, against the element definitions."""
+    from resonaate.physics.orbits.elements import ClassicalElements
+    from resonaate.physics.orbits.utils import (getAngularMomentumFromEQE, getFlightPathAngle, getMeanMotion, getSmaFromMeanMotion,
+                                                getTrueAnomalyFromRV, retrogradeFactor)
+
+    els = tuple(float(v) for v in els)
+    sma, e, inc, raan, argp, nu = els
+    wit = {"kind": "helpers", "els": list(els), "mu_other": mu_other}
+    xr = np.array(kr.state_from_coe(*els))
+    r, v = xr[:3], xr[3:]
+    # an angle recovered through arccos loses digits next to 0 and pi: error ~ eps / |sin(nu)|, at most sqrt(2 eps) = 2e-8
+    t_nu = 1e-9 / max(e, 1e-3) + min(1e-12 / max(abs(math.sin(nu)), 1e-300), 2e-7)
+    if e >= 1e-3:
+        ok, got = _call(ctx, "true-anomaly-from-state", wit, getTrueAnomalyFromRV, xr)
+        if ok:
+            _cmp(ctx, "helpers", "true-anomaly-from-state", abs(kr.angdiff(float(got), nu)), t_nu, f"getTrueAnomalyFromRV = {got!r} for a state at true anomaly {nu!r}", wit)
+        xo = np.array(kr.state_from_coe(*els, mu=mu_other))
+        ok, got = _call(ctx, "true-anomaly-from-state", wit, getTrueAnomalyFromRV, xo, mu_other)
+        if ok:
+            _cmp(ctx, "helpers", "true-anomaly-from-state-other-mu", abs(kr.angdiff(float(got), nu)), t_nu, f"getTrueAnomalyFromRV(mu={mu_other}) = {got!r} for a state at true anomaly {nu!r}", wit)
+    ok, fpa = _call(ctx, "flight-path-angle", wit, getFlightPathAngle, e, nu)
+    if ok:
+        ref = math.asin(max(-1.0, min(1.0, float(r @ v) / (np.linalg.norm(r) * np.linalg.norm(v)))))
+        _cmp(ctx, "helpers", "flight-path-angle", abs(kr.angdiff(float(fpa), ref)), 1e-10, f"getFlightPathAngle({e!r}, {nu!r}) = {fpa!r}; the velocity is {ref!r} rad above the local horizontal", wit)
+    for mu in (kr.MU, mu_other):
+        ok, a2 = _call(ctx, "sma-from-mean-motion", wit, lambda m=mu: getSmaFromMeanMotion(getMeanMotion(sma, m), m))
+        if ok:
+            _cmp(ctx, "helpers", "sma-from-mean-motion", abs(float(a2) - sma) / sma, 1e-13, f"getSmaFromMeanMotion(getMeanMotion(a)) = {a2!r} for a = {sma!r} (mu = {mu})", wit)
+        ok, n_ = _call(ctx, "mean-motion", wit, getMeanMotion, sma, mu)
+        if ok:
+            _cmp(ctx, "helpers", "mean-motion", abs(float(n_) - math.sqrt(mu / sma ** 3)) / float(n_), 1e-13, "getMeanMotion != sqrt(mu / a^3)", wit)
+    hhat = np.cross(r, v)
+    hhat /= np.linalg.norm(hhat)
+    for retro in (False, True):
+        if (retro and inc < 0.05) or (not retro and inc > PI - 0.05):
+            continue            # tan(i/2) (resp. its reciprocal) is unbounded there
+        _a, _h, _k, p_, q_, _l = kr.eqe_from_coe(*els, retro=retro)
+        ok, hv = _call(ctx, "momentum-direction-from-eqe", wit, getAngularMomentumFromEQE, p_, q_, retro)
+        if ok:
+            _cmp(ctx, "helpers", "momentum-direction-from-eqe" + ("-retro" if retro else ""), float(np.linalg.norm(np.asarray(hv, dtype=float) - hhat)), 1e-12 * (1 + p_ * p_ + q_ * q_),
+                 f"getAngularMomentumFromEQE(p, q, retro={retro}) differs from r x v / |r x v|", wit)
+    # class flags of an element object built from the state (outside a band around the documented limits)
+    d = _idev(inc)
+    # (an inclination recovered from a state resolves sqrt(2 eps) = 2e-8 rad at best, so only clearly inclined and exactly
+    # equatorial states have a flag the documented limit decides)
+    if abs(e - E_LIM) > 0.5 * E_LIM and (d >= 1e-6 or inc == 0.0) and not _retro_eq(els):
+        ok, obj = _call(ctx, "classical-elements-from-state", wit, ClassicalElements.fromECI, xr)
+        if ok:
+            flags = (bool(obj.is_eccentric), bool(obj.is_circular), bool(obj.is_inclined), bool(obj.is_equatorial))
+            want = (e >= E_LIM, e < E_LIM, d >= I_LIM, d < I_LIM)
+            ctx.check(flags == want, "element-class-flags", f"(is_eccentric, is_circular, is_inclined, is_equatorial) = {flags} for e = {e!r}, inclination {d!r} rad from the equator; documented limits give {want}", wit, mon="helpers")
+    if d >= 10 * I_LIM:
+        ctx.check(retrogradeFactor(inc) == 1, "retrograde-factor", f"retrogradeFactor({inc!r}) = {retrogradeFactor(inc)} for an inclined orbit", wit, mon="helpers")
+    ctx.check(retrogradeFactor(PI) == -1 and retrogradeFactor(0.0) == 1, "retrograde-factor", "retrogradeFactor(pi) / retrogradeFactor(0) are not -1 / +1", wit, mon="helpers")
+
+
 def chk_orbit(ctx, els):
     from resonaate.physics.orbits.conversions import coe2eci, coe2eqe, eci2coe, eci2eqe, eqe2coe, eqe2eci
     from resonaate.physics.orbits.elements import ClassicalElements, EquinoctialElements
@@ -863,6 +920,8 @@ def run(ctx):
             break
         els = _gen_orbit(rng)
         cls = chk_orbit(ctx, els)
+        if i % 4 == 0:
+            chk_orbit_helpers(ctx, els, rng.choice([4902.800066, 42828.37, 1.32712440018e11, 3.986e5 * rng.uniform(0.5, 2.0)]))
         ctx.case(("o",) + tuple(els), nontrivial=True)
         if i % 3000 == 0:
             ctx.sample({"orbit": {"class": cls, "els": list(els)}})
@@ -892,5 +951,7 @@ def replay(ctx, w):
         chk_predicates(ctx, w["e"], w["inc"])
     elif kind == "config":
         chk_config(ctx, w["cfg"])
+    elif kind == "helpers":
+        chk_orbit_helpers(ctx, w["els"], w["mu_other"])
     else:
         chk_orbit(ctx, w["els"])
